@@ -261,7 +261,10 @@ SHAPES = [
     [("Rain", 2, []), ("Sprinkler", 2, [0]), ("Wet", 2, [0, 1])],
     [("A", 2, []), ("B", 2, []), ("C", 2, [0, 1])],
     [("A", 2, []), ("B", 2, [0]), ("C", 2, [1])],
-    [("X-1", 2, []), ("x_1", 2, [0])],                       # names needing sanitising / colliding after sanitising
+    [("X-1", 2, []), ("x_1", 2, [0])],                       # names needing sanitising
+    [("Rain-1", 2, []), ("Rain1", 2, [0]), ("Wet", 2, [0, 1])],   # names that coincide after sanitising, the altered one declared first
+    [("rain1", 2, []), ("Rain-1", 2, [0])],                   # ... the clean one declared first
+    [("A", 2, []), ("a", 2, [0]), ("a1", 2, [1])],            # case folding collides; the suffixed name is taken as well
     [("A", 2, []), ("B", 3, [0]), ("C", 2, [1]), ("D", 2, [0, 2])],
     [("C", 2, [1]), ("A", 2, []), ("B", 2, [0, 1])],          # declaration order differs from topological order
 ]
@@ -515,7 +518,7 @@ def main():
                 scen.append({"pdoms": pdoms, "cdom": cdom, "present": {"default": d, "table": t, "entries": list(ent)}})
     for s in scen:
         work.append((job_cpt, s, f"cpt/{s['pdoms']}/{s['cdom']}/{s['present']}"))
-    shapes = SHAPES[:7] if run.quick else SHAPES
+    shapes = SHAPES[:10] if run.quick else SHAPES
     for sh in shapes:
         work.append((job_joint, sh, f"joint/{sh}"))
     queries = [
@@ -523,9 +526,10 @@ def main():
         (SHAPES[1], "inference", 1, 2, [(0, 0)]), (SHAPES[3], "inference", 0, 1, [(2, 1)]), (SHAPES[3], "sampling", None, None, [(2, 1), (0, 0)]),
         (SHAPES[2], "inference", 0, 2, [(1, 1)]), (SHAPES[5], "inference", 0, 1, [(2, 1)]),
     ]
+    queries += [(SHAPES[7], "inference", 1, 2, [(2, 1)]), (SHAPES[7], "sampling", None, None, [(0, 1), (2, 1)])]
     if not run.quick:
         queries += [(SHAPES[4], "inference", 2, 3, [(0, 1), (1, 0)]), (SHAPES[4], "sampling", None, None, [(2, 0)]), (SHAPES[3], "inference", 1, 1, [(2, 0)]),
-                    (SHAPES[1], "sampling", None, None, [(1, 2)]), (SHAPES[8], "inference", 1, 1, [(2, 1)])]
+                    (SHAPES[1], "sampling", None, None, [(1, 2)]), (SHAPES[-1], "inference", 1, 1, [(2, 1)])]
     for q in queries:
         work.append((job_query, q, f"query/{q[1]}/{q[0]}"))
     work.append((job_bif_text, run.seed, "bif-text"))
